@@ -6,6 +6,10 @@
 #include <algorithm>
 #include <functional>
 #include <memory>
+#include <sys/mman.h>
+#include <sys/file.h>
+#include <fcntl.h>
+#include <unistd.h>
 
 using plan::Op;
 using plan::Plan;
@@ -1271,6 +1275,132 @@ static void exec_copy(Ctx &c, const Op &op)
 }
 
 // ---------------------------------------------------------------------------------------------
+// bulk parcpy / parSetZero: >= 2^20 elements of mmap'ed caller memory (plain flavour, thorough C17)
+// ---------------------------------------------------------------------------------------------
+struct MapBuf
+{
+    uint64_t *base = nullptr;
+    size_t elems = 0, guard = 512; // one page of guard words on each side
+    MapBuf(size_t n, bool shared) : elems(n)
+    {
+        void *p = mmap(nullptr, (n + 2 * guard) * 8, PROT_READ | PROT_WRITE, (shared ? MAP_SHARED : MAP_PRIVATE) | MAP_ANONYMOUS | MAP_NORESERVE, -1, 0);
+        base = p == MAP_FAILED ? nullptr : (uint64_t *)p;
+        if (base)
+            for (size_t i = 0; i < guard; i++)
+                base[i] = base[guard + n + i] = 0xC0FFEE0000000000ull + i;
+    }
+    ~MapBuf()
+    {
+        if (base)
+            munmap(base, (elems + 2 * guard) * 8);
+    }
+    uint64_t *p() { return base + guard; }
+    bool guards_ok() const
+    {
+        for (size_t i = 0; i < guard; i++)
+            if (base[i] != 0xC0FFEE0000000000ull + i || base[guard + elems + i] != 0xC0FFEE0000000000ull + i)
+                return false;
+        return true;
+    }
+};
+static inline uint64_t big_val(uint64_t i, uint64_t seed)
+{
+    uint64_t x = (i + 1) * 0x9E3779B97F4A7C15ull ^ seed;
+    x ^= x >> 29;
+    x *= 0xBF58476D1CE4E5B9ull;
+    x ^= x >> 32;
+    return x | 1; // never zero
+}
+static void exec_copy_big(Ctx &c, const Op &op)
+{
+    RunResult &r = c.res;
+    const uint64_t n = op.size;
+    const bool giant = n > ((uint64_t)1 << 24);
+    int lockfd = -1;
+    if (giant)
+    {
+        // several GiB of resident memory: one such run at a time on the machine
+        lockfd = open("/verif/build/.giant-copy.lock", O_CREAT | O_RDWR, 0644);
+        if (lockfd >= 0)
+            flock(lockfd, LOCK_EX);
+    }
+    {
+        // positions that are filled and checked: everything for ordinary bulk sizes; for giant sizes both ends, the
+        // neighbourhood of every 2^32-byte boundary and one element in 8191
+        auto sampled = [&](uint64_t i) { return !giant || i < 70000 || i + 70000 >= n || (i % 8191) == 0 || ((i & (((uint64_t)1 << 29) - 1)) < 4096) || ((i & (((uint64_t)1 << 29) - 1)) >= ((uint64_t)1 << 29) - 4096); };
+        MapBuf S(op.big_zero ? 1 : n, op.big_shared), D(n, op.big_shared);
+        if (!S.base || !D.base)
+        {
+            r.unsupported_ops++;
+            if (lockfd >= 0)
+                close(lockfd);
+            return;
+        }
+        for (uint64_t i = 0; i < n; i++)
+            if (sampled(i))
+            {
+                if (!op.big_zero)
+                    S.p()[i] = big_val(i, op.input_seed);
+                D.p()[i] = big_val(i, op.garbage_seed) ^ 0x5555555555555554ull;
+            }
+        sim::OpSim cfg = ref_cfg();
+        cfg.force_single = false;
+        cfg.strategy = op.strategy;
+        cfg.sched_seed = op.sched_seed;
+        sim::OpStats st = simulate(cfg, [&] {
+            if (op.big_zero)
+                shim::parsetzero(D.p(), n, op.threads);
+            else
+                shim::parcpy(D.p(), S.p(), n, op.threads);
+        });
+        (void)st;
+        r.regions += st.regions;
+        uint64_t h = 0xcbf29ce484222325ULL;
+        long bad = -1;
+        uint64_t got = 0, want = 0;
+        for (uint64_t i = 0; i < n; i++)
+            if (sampled(i))
+            {
+                uint64_t w = op.big_zero ? 0 : big_val(i, op.input_seed);
+                if (D.p()[i] != w && bad < 0)
+                {
+                    bad = (long)i;
+                    got = D.p()[i];
+                    want = w;
+                }
+                if (!op.big_zero && S.p()[i] != w && bad < 0)
+                {
+                    bad = (long)i;
+                    got = S.p()[i];
+                    want = w;
+                }
+                h = (h ^ D.p()[i]) * 0x100000001b3ULL;
+            }
+        r.hash = fnv_u64(h, r.hash);
+        r.outcome_hash = fnv_u64(h, r.outcome_hash);
+        if (bad >= 0)
+        {
+            char buf[220];
+            snprintf(buf, sizeof buf, "element %ld = %llu, expected %llu (size %llu, threads %d, %s mapping)", bad, (unsigned long long)got, (unsigned long long)want, (unsigned long long)n, op.threads,
+                     op.big_shared ? "shared" : "private");
+            c.violation("oracle-mismatch", {"C17"}, op, op.big_zero ? "zero reference model: exactly size elements zeroed (bulk)" : "copy reference model: exactly size elements transferred, source unchanged (bulk)", buf);
+        }
+        if (!D.guards_ok() || !S.guards_ok())
+            c.violation("stray-write", {"C17", "C18"}, op, "nothing outside the size elements is written (bulk)", "guard page next to the mapping changed");
+        r.faults["bulk_copy_elements"] += n;
+        r.probes.insert(op.big_shared ? "bulk_copy_shared_mapping" : "bulk_copy_private_mapping");
+        if (giant)
+            r.probes.insert("bulk_copy_member_share>=4GiB");
+    }
+    if (lockfd >= 0)
+    {
+        flock(lockfd, LOCK_UN);
+        close(lockfd);
+    }
+    c.last_out_digest = 0;
+}
+
+// ---------------------------------------------------------------------------------------------
 static void delete_slot(Ctx &c, int slot, const Op &op)
 {
     Slot &s = c.slots[slot & 1];
@@ -1292,6 +1422,7 @@ static uint64_t shape_hash_of(const Plan &p)
         Op t = o;
         t.input_seed = t.sched_seed = t.garbage_seed = 0;
         t.schedule.clear();
+        t.schedule2.clear();
         h = fnv_str(t.to_json().str(), h);
     }
     h = fnv_u64((uint64_t)p.machine.nthreads_var * 1000 + p.machine.thread_limit * 2 + p.machine.dyn, h);
@@ -1343,6 +1474,9 @@ RunResult run_plan(const Plan &p0, uint64_t garbage_salt)
         case plan::K_PARCPY:
         case plan::K_PARSETZERO:
             exec_copy(c, op);
+            break;
+        case plan::K_COPY_BIG:
+            exec_copy_big(c, op);
             break;
         case plan::K_HOST_ICV:
             sim::host_set_icv(op.icv_nthreads, op.icv_dyn, op.icv_limit);
